@@ -16,7 +16,7 @@ import re
 from vlib import core
 from props import _c05_revoke
 
-BINS = [b for b in ["h_shachain", "h_revoke", "h_reest_probe"] if os.path.exists(os.path.join(core.HARNESS, "src", "bin", b + ".rs"))]
+BINS = [b for b in ["h_shachain", "h_revoke", "h_reest_probe", "h_early_raa_probe"] if os.path.exists(os.path.join(core.HARNESS, "src", "bin", b + ".rs"))]
 LEVEL = "proof"
 MANIFEST = {
     "category": "proof",
@@ -489,6 +489,22 @@ def run(ctx):
                           key=_c05_revoke.KNOWN_F1)
         elif rc != 0:
             broken.append({"correspondence": "h_reest_probe crashed", "tail": lines[-10:]})
+    # ---- known finding C05-F2: deterministic probe on the implementation
+    if "h_early_raa_probe" in BINS:
+        rc, lines = ctx.run_bin("h_early_raa_probe", "", args=["b"], timeout=300)
+        pl = [l for l in lines if l.startswith("P ")]
+        handed = [l for l in pl if "handed to node0's monitor:" in l]
+        m_h = re.search(r"\[(\d+)\]", handed[0]) if handed else None
+        signed = [int(x) for l in pl for x in re.findall(r"signer of node0: sign_counterparty\((\d+)\)", l)]
+        accepted = any("after the revoke_and_ack:" in l and "awaiting_remote_revoke=false" in l for l in pl)
+        sent = any("commitment_signed messages sent: 1" in l for l in pl)
+        ctx.coverage["early_raa_probe"] = {"rc": rc, "handed_to_monitor": m_h.group(1) if m_h else None, "signed": signed, "early_raa_accepted": accepted, "commitment_signed_sent": sent}
+        if rc == 0 and m_h and accepted and sent and signed and all(k == int(m_h.group(1)) - 1 for k in signed):
+            ctx.violation("C05 fails on the implementation: a revoke_and_ack sent before our commitment_signed was signed (monitor update in flight) is accepted; the node then signs the commitment number AFTER the one it built and handed to the monitor",
+                          {"failing_input": {"probe": pl}, "replay_cmd": "%s b | grep '^P '" % ctx.bin_path("h_early_raa_probe")}, True,
+                          key=_c05_revoke.KNOWN_F2)
+        elif rc != 0:
+            broken.append({"correspondence": "h_early_raa_probe crashed", "tail": lines[-10:]})
     ev_total = ctx.coverage.get("shachain_ops", 0) + ctx.coverage.get("revoke_steps", 0)
     ctx.coverage["evaluations"] = ev_total
     ctx.coverage["distinct_nontrivial"] = ctx.coverage.get("shachain_ops", 0) + ctx.coverage.get("revoke_distinct_nontrivial", 0)
@@ -506,7 +522,7 @@ def run(ctx):
             k = f.get("key", f["why"])
             ctx.violation("C05 fails on the implementation: " + f["why"], {"broken": broken, "failing_input": f,
                           "replay_cmd": "%s replay '%s'" % (ctx.bin_path("h_revoke"), json.dumps(f.get("replay", {})))}, True,
-                          key=k if k == _c05_revoke.KNOWN_F1 else "revoke:" + k)
+                          key=k if k in _c05_revoke.KNOWN else "revoke:" + k)
     if broken and not found:
         what = "proof" if not proved else "correspondence"
         ctx.violation("C05 no longer shown: %s broken" % what,
